@@ -320,7 +320,7 @@ class Body:
         self.argc = raw["argc"]
         self.locals = raw["locals"]
         self.vars = raw["vars"]
-        if os.environ.get("SWIMVERIFY_ALPHA") == "1":
+        if os.environ.get("SWIMVERIFY_ALPHA", "0") == "1":
             # self-test: forget the names of let-bound locals (alpha-renaming must not change any verdict); parameters keep theirs
             self.vars = [(n, p) for n, p in raw["vars"] if (not p[1] and 1 <= p[0] <= raw["argc"]) or p[1]]
         self._calls = None
@@ -348,7 +348,60 @@ class Body:
         for n, p in self.vars:
             if p[0] == local and not p[1]:
                 return n
-        return None
+        return self.derived_names().get(local)
+
+    def derived_names(self):
+        """Names for let-bound locals that do not depend on what the author called them: a local is named after the parameter of the crate-local
+        function it is passed to (by value, reference or reborrow). When it is passed under several parameter names the most frequent wins, ties go to
+        a name no other local of this body is given. Used when user names are withheld (alpha mode) so that rules survive a renaming of locals."""
+        if getattr(self, "_derived", None) is not None:
+            return self._derived
+        self._derived = {}
+        if os.environ.get("SWIMVERIFY_ALPHA", "0") != "1":
+            return self._derived
+        votes = defaultdict(lambda: defaultdict(int))
+        named = {p[0] for n, p in self.vars if not p[1]}
+        for c in self.calls:
+            dp = c.defpath
+            if not dp or dp not in self.crate.by_def:
+                continue
+            try:
+                cb = self.crate.body(dp)
+            except Exception:
+                continue
+            pn = {}
+            for n, p in cb.raw["vars"]:
+                if not p[1] and 1 <= p[0] <= cb.argc:
+                    pn[p[0]] = n
+            for i, a in enumerate(c.args):
+                nm = pn.get(i + 1)
+                if nm is None or nm in ("self",):
+                    continue
+                pl = op_place(a)
+                if pl is None or [x for x in pl[1] if x != "*"]:
+                    continue
+                root = self.copy_root(pl)
+                if root is None or root in named or root <= self.argc:
+                    continue
+                votes[root][nm] += 1
+        proposed = defaultdict(set)
+        for loc, vs in votes.items():
+            for nm in vs:
+                proposed[nm].add(loc)
+        for loc, vs in votes.items():
+            best = max(vs.values())
+            cands = sorted(nm for nm, k in vs.items() if k == best)
+            uniq = [nm for nm in cands if len(proposed[nm]) == 1]
+            self._derived[loc] = (uniq or cands)[0]
+        # two locals must not share a derived name
+        seen = defaultdict(list)
+        for loc, nm in self._derived.items():
+            seen[nm].append(loc)
+        for nm, locs in seen.items():
+            if len(locs) > 1:
+                for loc in locs:
+                    del self._derived[loc]
+        return self._derived
 
     # -- CFG ------------------------------------------------------------------------------
     def term(self, b):
@@ -796,6 +849,30 @@ class Body:
                         for a in c.args:
                             push_op(a)
         return out
+
+    def copy_root(self, operand, hops=8):
+        """The local an operand is a plain copy / move / reborrow of (follows single definitions `_a = move _b`, `_a = &_b`)."""
+        pl = op_place(operand) if not (isinstance(operand, list) and operand and isinstance(operand[0], int)) else operand
+        if pl is None:
+            return None
+        loc = pl[0]
+        if [x for x in pl[1] if x != "*"]:
+            return loc
+        while hops > 0:
+            hops -= 1
+            ds = self.defs.get(loc, ())
+            if len(ds) != 1 or ds[0][0] != "assign":
+                break
+            rv = ds[0][3]
+            nxt = None
+            if rv[0] == "use":
+                nxt = op_place(rv[1])
+            elif rv[0] == "ref":
+                nxt = rv[2]
+            if nxt is None or [x for x in nxt[1] if x != "*"]:
+                break
+            loc = nxt[0]
+        return loc
 
     def cast_chain(self, operand, hops=12):
         """Kinds of the casts an operand went through, following single definitions (copies, casts, derefs), innermost last."""
